@@ -26,7 +26,8 @@ inductive MB where
   deriving Repr, DecidableEq
 
 /-- `repo.merge_base(a, b)`: the merge base of a commit and one of its descendants is the commit
-itself; otherwise it is a third commit, or there is none (`GIT_ENOTFOUND`). -/
+itself (`base == a` iff `le a b`, `base == b` iff `le b a`); otherwise it is a third commit
+(`base false false`) when the two are related, or there is none (`GIT_ENOTFOUND`, the `?` error). -/
 def mergeBase (le rel : Nat → Nat → Bool) (a b : Nat) : MB :=
   if le a b || le b a || rel a b then .base (le a b) (le b a) else .err
 
@@ -78,15 +79,17 @@ def fold2 (le rel : Nat → Nat → Bool) (longest : Nat) : List Nat → Except 
 def retained (t : Nat) (cands : List (Nat × Nat)) : List Nat :=
   (cands.filter (fun p => t ≤ p.2)).map (·.1)
 
+/-- `pop_first().ok_or(NoCandidates)?`, then the fold. -/
+def phase2 (le rel : Nat → Nat → Bool) : List Nat → Except QErr Nat
+  | [] => .error .noCandidates
+  | c :: cs => fold2 le rel c cs
+
 /-- `Canonical::quorum`. `tips` = the `(Did, Oid)` entries of `self.tips`, `t` = `self.threshold`. -/
 def quorum (le rel : Nat → Nat → Bool) (tips : List (Nat × Nat)) (t : Nat) : Except QErr Nat :=
   let d := direct tips
   match outer le rel d d with
   | .error e => .error e
-  | .ok cands =>
-    match retained t cands with
-    | [] => .error .noCandidates
-    | c :: cs => fold2 le rel c cs
+  | .ok cands => phase2 le rel (retained t cands)
 
 /-- `BTreeMap::insert` on the `Did`-keyed map (`Canonical::reference` / `modify_vote`): last write wins. -/
 def setTip (d o : Nat) : List (Nat × Nat) → List (Nat × Nat)
